@@ -34,6 +34,15 @@ func main() {
 		cmdList(os.Args[2:])
 	case "baseline":
 		cmdBaseline(os.Args[2:])
+	case "globals":
+		w, err := LoadWorld(repoRoot, specDir(), nil)
+		if err != nil {
+			fmt.Fprintln(os.Stderr, err)
+			os.Exit(2)
+		}
+		for _, gw := range w.scanGlobalWrites() {
+			fmt.Printf("%s\t%s\t%s\t%s\n", gw.Global, gw.How, gw.Func, gw.Pos)
+		}
 	default:
 		fmt.Fprintln(os.Stderr, "unknown command", os.Args[1])
 		os.Exit(2)
